@@ -64,7 +64,7 @@ var c03Ops = []struct {
 	resKind    int // expected static result kind when fixed (1 = bool, 24 = string, 0 = by combined / not checked)
 }{
 	{"==", "equal", 1}, {"<", "less", 1}, {">=", "moreOrEqual", 1}, {"+", "add", 0}, {"-", "subtract", 0}, {"*", "multiply", 0},
-	{"/", "divide", 0}, {"%", "modulo", 0}, {"**", "exponent", 14}, {"..", "range", 0}, {"and", "bool", 1}, {"contains", "string", 1},
+	{"/", "divide", 0}, {"%", "modulo", 0}, {"**", "exponent", 14}, {"..", "range", 0}, {"and", "bool", 1}, {"contains", "string", 1}, {"in", "skip", 0},
 }
 
 func genC03(w *World, res *CheckResult) {
@@ -115,6 +115,9 @@ func genC03(w *World, res *CheckResult) {
 		d := &dyn{allTypeFail: true}
 		a, b := l.cell("xa"), r.cell("xb")
 		switch helper {
+		case "skip":
+			// membership goes through reflect (vm.in): only the typing rule itself is exercised (it must not fail)
+			d.allTypeFail = false
 		case "bool", "string":
 			want := "VBool"
 			if helper == "string" {
@@ -173,7 +176,7 @@ func genC03(w *World, res *CheckResult) {
 		return d
 	}
 	for _, op := range c03Ops {
-		if op.helper != "bool" && op.helper != "string" && op.helper != "range" {
+		if op.helper != "bool" && op.helper != "string" && op.helper != "range" && op.helper != "skip" {
 			res.Functions = append(res.Functions, "vm."+op.helper)
 		}
 		for _, l := range U {
@@ -277,7 +280,7 @@ func genC03(w *World, res *CheckResult) {
 						e.AddVC(cell+"/rule", "post", fn.String(), o.St, Not(Eq(Not(rejected), want)), "the operator is accepted exactly when the documented typing rule admits these operand types")
 					}
 					e.AddVC(cell+"/rejects", "post", fn.String(), o.St, And(af, Not(rejected)), "an operation that fails for a type reason on every value of these types is rejected")
-					if op.resKind == 0 && op.helper != "range" && len(o.Res) == 1 && l.T != nil && r.T != nil {
+					if op.resKind == 0 && op.helper != "range" && op.helper != "skip" && len(o.Res) == 1 && l.T != nil && r.T != nil {
 						// arithmetic: the static result kind is the dynamic kind of the helper's result
 						_, ln := l.T.(*types.Named)
 						_, rn := r.T.(*types.Named)
